@@ -321,6 +321,9 @@ func c11RunE2E(t *testing.T, lane string, alt bool, n int, rule string) {
 			s.Count("direct")
 		}
 		prevCl, prevPs, prevLine0, prevScen = cl, ps, line0, scen
+		for _, b := range c11DegBuckets(ps) {
+			s.Count(b)
+		}
 		for _, p := range ps {
 			s.Count("pol:" + p.kind)
 		}
